@@ -44,13 +44,13 @@ def canon_times(times, step):
     interior = {}
     for t in sorted(set(times)):
         if t % step != 0:
-            interior.setdefault(t // step, []).append(t)
+            interior.setdefault(int(t // step), []).append(t)
     out = {}
     for t in set(times):
         if t % step == 0:
-            out[t] = DT_SPEC * (t // step)
+            out[t] = DT_SPEC * int(t // step)
         else:
-            j = t // step
+            j = int(t // step)
             rank = interior[j].index(t) + 1
             if rank > DT_SPEC - 1:
                 raise ValueError("too many distinct interior times in one step")
@@ -152,7 +152,7 @@ def _run_case(case):
     from harness import sysrun, tracer
     cfg, meta = build_case(case)
     # event ids in the tracer are resolved from (type, start tick in REAL seconds, ident)
-    tmeta = [dict(m, t0=m["real_t0"], t1=m["real_t1"]) for m in meta]
+    tmeta = [dict(m, t0=int(round(m["real_t0"])), t1=int(round(m["real_t1"]))) for m in meta]
     env = tracer.TableEnv(_r.Random(case["seed"]), serendipity=False)
     np.random.seed(case["seed"] % (2 ** 31))
     sch = sysrun.Schedule("random", rng=_r.Random(case["seed"])) if case.get("random_schedule") else sysrun.Schedule("fifo")
@@ -191,6 +191,10 @@ def make_cases(ctx: Ctx, rng):
             j = rng.randint(1, n)
             add(start, step, [{"kind": "impulse", "t0": j * step, "planned": True},
                               {"kind": "impulse", "t0": (j - 1) * step + 1, "planned": False, "target": 1}])
+            # event times with fractional seconds just after / before a step boundary and mid-step
+            j = rng.randint(1, n - 1)
+            for frac in ((0.4, -0.3) if ctx.quick else (0.4, 0.25, -0.3, 0.5)):
+                add(start, step, [{"kind": "impulse", "t0": j * step + frac, "planned": frac > 0}])
             # overlapping duration events on one sensor / one engine, and an impulse on a target added earlier in the run
             a = rng.randint(1, n - 1)
             add(start, step, [{"kind": "bias", "t0": a * step, "t1": (a + 1) * step, "sensor": 0},
@@ -274,6 +278,8 @@ def spec_level(ctx: Ctx):
 def signature(case, verdict):
     kinds = "+".join(sorted({e["kind"] for e in case["events"]}))
     aligned = any(e["t0"] % case["step"] == 0 for e in case["events"])
+    if any(e["t0"] != int(e["t0"]) for e in case["events"]):
+        kinds += "(fractional-second)"
     ev = verdict.get("event") or {}
     if verdict["kind"] == "invariant":
         what = verdict["invariant"]
